@@ -200,3 +200,21 @@ func VH_C03_buffer() {
 	}
 	vReach("end")
 }
+
+// zero-length segments (a repeated vertex): the distance is the distance to
+// that point, for the kernel and through LineString.Distance
+func VH_C03_distance_degenerate() {
+	w := 3
+	p, a := vGridPt(w, 0), vGridPt(w, 0)
+	want := math.Sqrt((p.X-a.X)*(p.X-a.X) + (p.Y-a.Y)*(p.Y-a.Y))
+	d := distPointToSegment(p, a, a)
+	vAssert(d == want, "zero-length-segment-distance-to-the-point")
+	l := LineString{a, a}
+	vAssert(l.Distance(p) == want, "linestring-with-repeated-vertex")
+	b := vGridPt(w, 0)
+	l3 := LineString{b, a, a}
+	d3 := l3.Distance(p)
+	vAssert(d3 <= want, "repeated-vertex-does-not-hide-the-minimum")
+	vAssert(d3 == d3, "distance-is-a-number")
+	vReach("end")
+}
